@@ -29,9 +29,6 @@ theorem sq_dispatch_table : ∀ kind ∈ sqKinds, ∀ dt ∈ kind.dtypes,
     (selectBranch sqBranches dt kind.rank).map SqBranch.sem = some (expectedSem kind) := by
   decide +kernel
 
-theorem cx_eq {a b : Cx K} (h1 : a.re = b.re) (h2 : a.im = b.im) : a = b := by
-  cases a; cases b; simp_all
-
 /-- |F/√n|² = |F|²/n -/
 theorem abs2_div (sqrt : K → K) (hs : SqrtOK sqrt) (n : ℕ) (hn : 0 < n) (F : Cx K) :
     reMulConj (⟨F.re / sqrt (n : K), F.im / sqrt (n : K)⟩ : Cx K) ⟨F.re / sqrt (n : K), F.im / sqrt (n : K)⟩
